@@ -21,7 +21,7 @@ void eng_default_profile(void)
 {
         memset(&EP, 0, sizeof EP);
         EP.max_cmds = 16; EP.p_event_step = 20; EP.p_handler_trigger = 20; EP.p_hold = 10; EP.p_list = 7; EP.p_weird = 13;
-        EP.p_varcb_fail = 3; EP.p_backpressure = 50; EP.p_desc = 25; EP.p_garbage_line = 6; EP.p_long_line = 8; EP.max_lines = 8; EP.p_cut = 15; EP.p_lookup = 4;
+        EP.p_varcb_fail = 3; EP.p_backpressure = 50; EP.p_desc = 25; EP.p_garbage_line = 6; EP.p_long_line = 8; EP.max_lines = 8; EP.p_cut = 15; EP.p_lookup = 4; EP.p_toggle = 0; EP.p_nul = 3; EP.p_stray_cr = 4;
 }
 
 /* ------------------------------------------------------------ model hooks */
@@ -167,8 +167,16 @@ static int eng_vpolicy(int ci, int vi, int dir, size_t wsize)
         return pr_pct(&H, EP.p_varcb_fail) ? (pr_pct(&H, 50) ? 1 : -1) : 0;
 }
 
+/* the status handed to cat_hold_exit: "0 - OK, else ERROR" (cat.h), so every non-zero value, whatever its sign, asks for ERROR */
+cat_status eng_release_status(void)
+{
+        static const int other[] = { -1, -1, -1, 1, 2, 7, -2, -9, 255, 0x7fffffff, -0x7fffffff - 1 };
+        if (chance(45)) return CAT_STATUS_OK;
+        return (cat_status)other[rn(sizeof other / sizeof other[0])];
+}
 void eng_hold_exit(cat_status st)
 {
+        if (st != CAT_STATUS_OK && st != CAT_STATUS_ERROR) CNT("releases_with_other_nonzero_status");
         cat_status s = cat_hold_exit(W.at, st);
         ev_note("cat_hold_exit(%d) -> %d (hold phase %d)", (int)st, (int)s, HOLD_PHASE);
         if (taint_hold) return;
@@ -186,7 +194,7 @@ void eng_spurious_hold_exit(void)
 {
         if (taint_hold || (HOLD_PHASE != 0 && HOLD_PHASE != 3)) return;
         struct cat_object before; memcpy(&before, W.at, sizeof before);
-        cat_status s = cat_hold_exit(W.at, chance(50) ? CAT_STATUS_OK : CAT_STATUS_ERROR);
+        cat_status s = cat_hold_exit(W.at, eng_release_status());
         CNT("spurious_hold_exits");
         if (s != CAT_STATUS_ERROR_NOT_HOLD) viol("C14", "spurious-release-accepted", "cat_hold_exit outside a hold returned %d", (int)s);
         if (RAW_COMPARES && memcmp(&before, W.at, sizeof before) != 0) viol("C14", "spurious-release-changed-state", "cat_hold_exit outside a hold modified the parser object");
@@ -235,9 +243,14 @@ void eng_after_service(cat_status s)
                 size_t outn = OUTN; long hc = 0, wr = N_WRITE_OK + N_WRITE_NO;
                 for (int f = 0; f < 2; f++) for (int k = 0; k < 4; k++) hc += N_HCALL[f][k];
                 hc += N_VCALL[0] + N_VCALL[1];
-                READ_GATE = false;
+                /* "no new input byte": bytes that arrive later are kept away from the repeated call.  When the read schedule is eager every byte of the input has
+                 * been available all along, so nothing of it is new: the gate stays open then and a parser that said OK with a byte in front of it is found out */
+                bool avail = RS.mode == SCH_EAGER && INPOS < INLEN && HOLD_PHASE == 0 && !taint_hold;
+                size_t inpos0 = INPOS;
+                READ_GATE = avail;
                 cat_status s2 = svc();
                 READ_GATE = true;
+                if (avail) { CNT("quiescence_probes_with_input_available"); if (INPOS != inpos0) viol("C15", "ok-with-input-available", "cat_service returned OK although the next input byte (offset %zu) was available to it all along; the repeated call consumed it", inpos0); }
                 long hc2 = 0; for (int f = 0; f < 2; f++) for (int k = 0; k < 4; k++) hc2 += N_HCALL[f][k];
                 hc2 += N_VCALL[0] + N_VCALL[1];
                 CNT("quiescence_probes");
@@ -362,10 +375,19 @@ void eng_gen_line(void)
                         unsigned s = rn(10);
                         if (s < 3) {} else if (s < 5) in_putc('?'); else if (s < 8) { in_putc('='); gen_args(c); } else if (s < 9) in_puts("=?"); else gen_args(c);
                         if (chance(4)) in_puts("?x");
+                        if (chance(EP.p_stray_cr)) {      /* a CR that is not followed by LF: stray CR, then junk / another CR / a '?' */
+                                static const char *tail[] = { "\rx", "\r\rq", "\r?", "\r=", "\r\r", "\r ", "\rAT" };
+                                in_puts(tail[rn(7)]);
+                        }
                 }
+        }
+        if (chance(EP.p_nul)) {                   /* NUL bytes are ordinary input bytes (a UART break, padding): at the end of the line, or somewhere inside it */
+                if (chance(50) || INLEN == 0) in_putc(0);
+                else { size_t at = INLEN - 1 - rn(INLEN > 6 ? 6 : INLEN); if (INB[at] != '\n') INB[at] = 0; }
         }
         if (chance(30)) in_putc('\r');
         in_putc('\n');
+        if (chance(EP.p_nul) && chance(30)) in_putc(0);      /* between two lines */
 }
 void eng_gen_input(unsigned nlines) { in_reset(); for (unsigned i = 0; i < nlines; i++) eng_gen_line(); }
 void eng_random_schedules(void)
@@ -402,9 +424,14 @@ void eng_run_history(void)
         bool quiet = false;
         for (long i = 0; i < cap1; i++) {
                 if (INPOS < INLEN && rn(1000) < EP.p_event_step) eng_trigger((int)rn(W.ncmds), chance(50) ? CAT_CMD_TYPE_READ : CAT_CMD_TYPE_TEST);
-                if (HOLD_PHASE == 1 && chance(3)) eng_hold_exit(chance(50) ? CAT_STATUS_OK : CAT_STATUS_ERROR);
-                else if (HOLD_PHASE == 2 && chance(20)) eng_hold_exit(chance(50) ? CAT_STATUS_OK : CAT_STATUS_ERROR);   /* repeated / conflicting request before it is consumed */
+                if (HOLD_PHASE == 1 && chance(3)) eng_hold_exit(eng_release_status());
+                else if (HOLD_PHASE == 2 && chance(20)) eng_hold_exit(eng_release_status());   /* repeated / conflicting request before it is consumed */
                 if (chance(1)) eng_spurious_hold_exit();
+                if (EP.p_toggle && rn(1000) < EP.p_toggle) {      /* the application switches a command or a group off / on between two service calls, wherever the parser happens to be */
+                        if (chance(70)) { struct cat_command *c = W.cmd[rn(W.ncmds)]; c->disable = !c->disable; }
+                        else { struct cat_command_group *g = W.grp[rn(W.ngroups)]; g->disable = !g->disable; }
+                        CNT("disable_flags_toggled_mid_history");
+                }
                 if (rn(1000) < EP.p_lookup) {      /* the read-only lookup helpers of the public API may be called at any time: they must not disturb the parser */
                         const char *nm = chance(70) ? W.cmd[rn(W.ncmds)]->name : "+NOSUCH";
                         const struct cat_command *c1 = cat_search_command_by_name(W.at, nm);
@@ -417,7 +444,7 @@ void eng_run_history(void)
                 if (case_failed()) return;
                 if (INPOS >= INLEN) {
                         if (s == CAT_STATUS_OK && HOLD_PHASE == 0) { quiet = true; break; }
-                        if (HOLD_PHASE == 1 && chance(20)) eng_hold_exit(chance(50) ? CAT_STATUS_OK : CAT_STATUS_ERROR);
+                        if (HOLD_PHASE == 1 && chance(20)) eng_hold_exit(eng_release_status());
                 }
         }
         /* phase II: no further stimulus, io always ready, holds released at once: bounded progress to quiescence (C15) */
@@ -430,7 +457,7 @@ void eng_run_history(void)
                         cat_status s = svc();
                         eng_after_service(s);
                         if (case_failed()) return;
-                        if (HOLD_PHASE == 1) eng_hold_exit(chance(50) ? CAT_STATUS_OK : CAT_STATUS_ERROR);
+                        if (HOLD_PHASE == 1) eng_hold_exit(eng_release_status());
                         if (taint_hold) (void)cat_hold_exit(W.at, CAT_STATUS_OK);
                         if (s == CAT_STATUS_OK && INPOS >= INLEN && HOLD_PHASE == 0) { quiet = true; break; }
                 }
